@@ -600,7 +600,7 @@ func GenC04Passthrough(seed uint64, tier string) *Plan {
 	cfg.Prefix = rt.Pick(r, []string{"", "/dav"})
 	cfg.WorldSeed = r.Uint64()
 	p := pathsFor(cfg.Server, cfg.Prefix)
-	for i := 0; i < r.Range(2, 8); i++ {
+	for i, n := 0, r.Range(2, 10); i < n; i++ {
 		st := &Step{DelayNS: 1000, Method: "PUT", Target: rt.Pick(r, []string{p.obj, p.missingObj}), Kind: "put-passthrough"}
 		if cfg.Server == "caldav" {
 			st.Body = []byte(icalDoc + "\r\n")
@@ -610,14 +610,31 @@ func GenC04Passthrough(seed uint64, tier string) *Plan {
 			st.set("Content-Type", "text/vcard")
 		}
 		st.DocEnd = len(st.Body)
-		switch r.Intn(3) {
+		switch r.Intn(4) {
 		case 0:
 			st.set("If-Match", rt.Pick(r, passthroughValues))
 		case 1:
 			st.set("If-None-Match", rt.Pick(r, passthroughValues))
-		default:
+		case 2:
 			st.set("If-Match", rt.Pick(r, passthroughValues))
 			st.set("If-None-Match", rt.Pick(r, passthroughValues))
+		default:
+			// no conditional header at all: the backend must see none either,
+			// whatever the requests before this one carried
+		}
+		if r.Chance(0.25) {
+			// a PUT that is refused before it reaches the backend (still
+			// carrying its conditional headers)
+			switch r.Intn(3) {
+			case 0:
+				st.Headers[0][1] = "application/json"
+			case 1:
+				st.Headers[0][1] = "text/calendar; charset"
+			default:
+				st.Body = []byte("BEGIN:NOTHING\r\nthis does not parse\r\n")
+				st.DocEnd = len(st.Body)
+			}
+			st.Kind = "put-passthrough-refused"
 		}
 		pl.Steps = append(pl.Steps, *st)
 	}
